@@ -76,6 +76,8 @@ def lean_ty(t):
             return f"Option {atom(lean_ty(t[1]))}"
         if t[0] == "res":
             return f"Except IntError {atom(lean_ty(t[1]))}"
+        if t[0] == "resE":
+            return f"Except EvalErr {atom(lean_ty(t[1]))}"
         if t[0] == "map":
             # HashMap<&str, V>: association list, later entries win (Model/Interp.lean, Rs.map*)
             v = ("struct", t[1]) if isinstance(t[1], str) and t[1] in STRUCT_LEAN else t[1]
@@ -87,7 +89,7 @@ def lean_ty(t):
     raise Unsupported(f"no Lean type for {t}")
 
 
-STRUCT_LEAN = {"Call": "Call R", "MacroErr": "MacroErr", "AstNode": "Node R", "Inner": "Inner R", "PExpr": "PExpr R", "Macro": "Macro R", "QReg": "QRegG R", "CReg": "CRegG", "VReg": "VRegG", "SingleOp": "SingleOp R", "BitsIter": "BitsIterG",
+STRUCT_LEAN = {"EvalErr": "EvalErr", "FuncErr": "FuncErr", "Call": "Call R", "MacroErr": "MacroErr", "AstNode": "Node R", "Inner": "Inner R", "PExpr": "PExpr R", "Macro": "Macro R", "QReg": "QRegG R", "CReg": "CRegG", "VReg": "VRegG", "SingleOp": "SingleOp R", "BitsIter": "BitsIterG",
                "Atom": "Atom R", "ExtOp": "ExtOp R", "Sep": "Sep", "MeasureOp": "MeasureOp", "Sym": "SymG R", "Int": "Interp R", "Argument": "Arg", "IntError": "IntError"}
 STRUCT_FIELDS = {
     "QReg": [("psi", ("vec", "C")), ("q_num", "N"), ("q_mask", "N")],
@@ -838,7 +840,10 @@ class Emitter:
         names, lets = [], []
         for p, t in zip(c[1], arg_tys):
             a = self.gensym("a")
-            names.append(a)
+            if t in (("struct", "Inner"), ("struct", "PExpr"), ("struct", "Call")):
+                names.append(f"({a} : {lean_ty(t)})")
+            else:
+                names.append(a)
             self.bind_pat(p, a, t, env2, lets)
         saved = self.pending
         self.pending = []
@@ -1160,8 +1165,14 @@ class Emitter:
                     self.fail("DisallowedNodeInIf of something else than the unmatched statement")
                 return "IntError.disallowedNodeInIf", ("struct", "IntError")      # the model does not keep the offending node
             vs = [self.ex(a, env) for a in args]
+            vs = [((f"{atom(v)}.text", "str") if t == ("struct", "PExpr") else (v, t)) for v, t in vs]     # `&str` of a parameter expression
             ctor = "IntError." + last[0].lower() + last[1:]
             return (f"({ctor} " + " ".join(atom(v) for v, _ in vs) + ")") if vs else ctor, ("struct", "IntError")
+        if segs[-2:] == ["parse", "eval_extended"] and len(args) == 2 and unparen(args[1]) == ("path", ["None"]):
+            xv, xt = self.ex(args[0], env)
+            if xt != ("struct", "PExpr"):
+                self.fail("eval_extended of something else than a parameter expression")
+            return f"(evalExtended {atom(xv)} [])", ("resE", "R")
         if last == "Ok" and len(args) == 1:
             a0 = unparen(args[0])
             if a0 == ("tuple", []):
@@ -1173,6 +1184,8 @@ class Emitter:
             if t != ("struct", "IntError"):
                 self.fail("Err of something else than the interpreter's error type")
             if not (isinstance(want, tuple) and want[0] == "res"):
+                if self.monad == "Except":
+                    return f"(Except.error {atom(v)})", ("res", None)      # the type is fixed by the other arms / the context
                 self.fail("Err(..) without a known result type")
             return f"(Except.error {atom(v)} : {lean_ty(want)})", want
         if last == "Some" and len(args) == 1:
@@ -1240,6 +1253,9 @@ class Emitter:
             for fname, fty in fs:
                 if fname in d:
                     v, t = self.ex(d[fname], env, fty)
+                    if fty == ("vec", ("struct", "Call")) and t == ("vec", ("tup", [ft for _, ft in STRUCT_FIELDS["Call"]])):
+                        # body statements `(name, regs, args)`: the model's record `Call`
+                        v, t = f"List.map (fun t_ => ({{ name := t_.1, regs := t_.2.1, args := t_.2.2 }} : Call R)) {atom(v)}", fty
                     if t != fty:
                         self.fail(f"field {fname}: {t} instead of {fty}")
                     parts.append(f"{FIELD_LEAN.get(sname, {}).get(fname, fname)} := {v}")
@@ -2269,6 +2285,8 @@ class Emitter:
 
     def pack_state(self, state, env):
         vs = [env[r][0] for r in state]
+        if not vs:
+            return "()"
         return vs[0] if len(vs) == 1 else "(" + ", ".join(vs) + ")"
 
     def unpack_state(self, var, state, tys, env, lets):
@@ -2379,7 +2397,13 @@ class Emitter:
         scrut = unparen(e[1])
         if scrut[0] == "un" and scrut[1] == "*":
             scrut = unparen(scrut[2])
+        if any(a[1] is not None or a[0][0] == "pwild" or any(isinstance(n, tuple) and n and n[0] in ("por", "pat_at") and n is not a[0]
+               for n in walk(a[0])) for a in e[2]) or \
+                (all(a[0][0] != "pat_at" for a in e[2]) and any(a[0][0] == "ppath" and a[0][1][-1] in ("Ok", "Err", "Some", "None") for a in e[2])):
+            return self.general_match(e, env, k, want)
         v, t = self.ex(scrut, env)
+        if t == ("struct", "Inner") and e[2][0][0][0] != "pat_at":
+            return self.general_match(e, env, k, want)
         if t == ("struct", "Inner"):
             return self.inner_match(e, v, env, k, want)
         if not (isinstance(t, tuple) and t[0] == "struct" and t[1] in self.ENUMS):
@@ -2427,6 +2451,134 @@ class Emitter:
             self.fail(f"match does not list every variant exactly once: {seen}")
         ty = next((bt for _, bt in res if bt is not None), None)
         return self.with_pending(lambda: (f"(match {v} with " + " ".join(a for a, _ in res) + ")", ty))
+
+    EVALERR = {"UnknownVariable": ("EvalErr.unknownVariable", ["str"], None), "Function": ("EvalErr.function", ["str", ("struct", "FuncErr")], None),
+               "ParseError": ("EvalErr.parseError", [None], "drop"), "RPNError": ("EvalErr.rpnError", [None], "drop")}
+
+    def pat_alts(self, pat, ty, env2):
+        """Lean patterns (one per alternative of the or-patterns inside) for a Rust pattern against a value of type ty;
+        binds the pattern's variables in env2"""
+        k0 = pat[0]
+        if k0 == "pwild":
+            return ["_"]
+        if k0 == "pref":
+            return self.pat_alts(pat[1], ty, env2)
+        if k0 == "pid":
+            env2[pat[1]] = (lname(pat[1]), ty)
+            return [lname(pat[1])]
+        if k0 == "pat_at":
+            env2[pat[1]] = (lname(pat[1]), ty)
+            return [f"{lname(pat[1])}@({a})" for a in self.pat_alts(pat[2], ty, env2)]
+        if k0 == "por":
+            out = []
+            for a in pat[1]:
+                e3 = {}
+                out += self.pat_alts(a, ty, e3)
+                if e3:
+                    self.fail("alternatives that bind variables")
+            return out
+        if k0 == "ptuple" and isinstance(ty, tuple) and ty[0] == "tup" and len(ty[1]) == len(pat[1]):
+            subs = [self.pat_alts(p, t, env2) for p, t in zip(pat[1], ty[1])]
+            out = [[]]
+            for alts in subs:
+                out = [o + [a] for o in out for a in alts]
+            return ["(" + ", ".join(o) + ")" for o in out]
+        if k0 == "ppath":
+            segs, subs = pat[1], pat[2] or []
+            last = segs[-1]
+            def combine(ctor, tys):
+                if len(subs) != len(tys):
+                    self.fail(f"pattern {last}: arity")
+                alts = [self.pat_alts(p, t, env2) for p, t in zip(subs, tys)]
+                out = [[]]
+                for al in alts:
+                    out = [o + [a] for o in out for a in al]
+                return [("(" + ctor + "".join(" " + x for x in o) + ")") if o else ctor for o in out]
+            if isinstance(ty, tuple) and ty[0] in ("res", "resE") and last in ("Ok", "Err") and len(segs) == 1:
+                if last == "Ok":
+                    return combine(".ok", [ty[1]])
+                return combine(".error", [("struct", "IntError" if ty[0] == "res" else "EvalErr")])
+            if isinstance(ty, tuple) and ty[0] == "opt" and len(segs) == 1 and last in ("Some", "None"):
+                return combine(".some", [ty[1]]) if last == "Some" else [".none"]
+            if ty == ("struct", "EvalErr") and last in self.EVALERR:
+                ctor, tys, shape = self.EVALERR[last]
+                if shape == "drop":
+                    if any(p[0] != "pwild" for p in subs):
+                        self.fail(f"{last}: the model constructor has no payload")
+                    return [ctor]
+                return combine(ctor, tys)
+            if ty == ("struct", "Inner") and segs[-2:] == ["AstNode", "ApplyGate"] and len(subs) == 3:
+                c = self.gensym("c")
+                for p, (fld, fty) in zip(subs, STRUCT_FIELDS["Call"]):
+                    if p[0] == "pid":
+                        env2[p[1]] = (f"{c}.{fld}", fty)
+                    elif p[0] != "pwild":
+                        self.fail("ApplyGate payload pattern")
+                return [f"(Inner.call {c})"]
+            if isinstance(ty, tuple) and ty[0] == "struct" and ty[1] in self.ENUMS and last in self.ENUMS[ty[1]]:
+                v = self.ENUMS[ty[1]][last]
+                if len(v) > 2:
+                    self.fail(f"pattern {last} of {ty[1]} inside a nested pattern")
+                return combine(v[0], v[1])
+        self.fail(f"pattern {pat} against {ty}")
+
+    def general_match(self, e, env, k, want):
+        """`match V { P1 [if g1] => A1, .. }` with nested patterns, guards, `x @ p`, alternatives and a catch-all arm, every arm a
+        statement block continuing with the rest of the function. An arm whose guard fails falls through to the later arms:
+        `| P => if g then A else (match V with <later arms>)`"""
+        scrut = unparen(e[1])
+        if scrut[0] == "un" and scrut[1] == "*":
+            scrut = unparen(scrut[2])
+        if scrut[0] == "mcall" and scrut[2] == "clone" and not scrut[3]:
+            scrut = unparen(scrut[1])
+        v, t = self.ex(scrut, env)
+        arms = e[2]
+        def body_of(b, env2):
+            b = unparen(b)
+            if b[0] == "block":
+                return self.stmts(b[1], b[2], env2, k, want)
+            if b[0] in ("return", "continue", "break") or self.is_effect_expr(b, env2) or b[0] in ("if", "match"):
+                return self.stmts([("expr", b)], None, env2, k, want)
+            return self.stmts([], b, env2, k, want)
+        tyres = [None]
+        def ctors_of(ty):
+            if isinstance(ty, tuple) and ty[0] == "struct" and ty[1] in self.ENUMS:
+                return set(self.ENUMS[ty[1]])
+            if isinstance(ty, tuple) and ty[0] == "opt":
+                return {"Some", "None"}
+            if isinstance(ty, tuple) and ty[0] in ("res", "resE"):
+                return {"Ok", "Err"}
+            return None
+        def rest(i):
+            alts = []
+            covered = set()
+            for j in range(i, len(arms)):
+                pat, guard, body = arms[j]
+                if ctors_of(t) is not None and covered >= ctors_of(t):
+                    break          # every constructor has an alternative already: Lean rejects a redundant one
+                if pat[0] == "ppath" and all(p[0] in ("pwild", "pid") for p in (pat[2] or [])):
+                    covered.add(pat[1][-1])
+                env2 = dict(env)
+                if pat[0] == "pid" and t == ("struct", "Inner"):
+                    env2[pat[1]] = ("OTHER_STATEMENT", ("struct", "OtherNode")); lps = ["_"]
+                else:
+                    lps = self.pat_alts(pat, t, env2)
+                bv, bt = body_of(body, env2)
+                tyres[0] = tyres[0] or bt
+                if guard is not None:
+                    g, tg = self.ex(guard, env2, "bool")
+                    if tg != "bool":
+                        self.fail("guard is not a bool")
+                    if j + 1 >= len(arms):
+                        self.fail("guarded last arm")
+                    bv = f"(if {g} then {bv} else {rest(j + 1)})"
+                for lp in lps:
+                    alts.append(f"| {lp} => {bv}")
+                if guard is None and (pat[0] in ("pwild", "pid")):
+                    break
+            return f"(match {v} with " + " ".join(alts) + ")"
+        out = rest(0)
+        return self.with_pending(lambda: (out, tyres[0]))
 
     def inner_match(self, e, v, env, k, want):
         """`match *if_block { x @ AstNode::ApplyGate(_, _, _) => A, y => B }` on the statement under `if`, which the model
@@ -2633,7 +2785,7 @@ class Emitter:
         if it["mut"] is not None:
             self.fail("for over iter_mut()")
         state = self.assigned_roots(body, env, local=[n[1] for n in walk(pat) if isinstance(n, tuple) and n and n[0] == "pid"])
-        if not state:
+        if not state and not (self.monad == "Except" and contains(body, ("return",))):
             self.fail("for loop without effect")
         tys = [env[r][1] for r in state]
         stmts_ = body[1] + ([("expr", body[2])] if body[2] is not None else [])
@@ -2646,7 +2798,7 @@ class Emitter:
             def on_continue(env3):
                 p = self.pack_state(state, env3)
                 if monadic and self.monad == "Except":
-                    return f"(Except.ok {atom(p)} : Except IntError {atom(' × '.join(atom(lean_ty(t)) for t in tys))})", None
+                    return f"(Except.ok {atom(p)} : Except IntError {atom(' × '.join(atom(lean_ty(t)) for t in tys) or 'Unit')})", None
                 return (f"some {atom(p)}" if monadic else p), None
             self.loop_handlers = self.loop_handlers + [{"continue": on_continue, "break": None}]
             saved = self.pending; self.pending = []
@@ -2654,7 +2806,7 @@ class Emitter:
             keep_ret, keep_rty = self.on_return, self.ret_ty
             if monadic and self.monad == "Except":
                 # `return Err(e)` inside the body ends the fold with that error
-                st_ty = " × ".join(atom(lean_ty(t)) for t in tys)
+                st_ty = " × ".join(atom(lean_ty(t)) for t in tys) or "Unit"
                 def loop_return(env3, val):
                     if val is None or not (isinstance(val[1], tuple) and val[1][0] == "res"):
                         self.fail("return of something else than Err(..) inside a for loop")
@@ -2672,7 +2824,8 @@ class Emitter:
             left = self.pending
             self.pending = saved
             self.loop_handlers = self.loop_handlers[:-1]
-            return f"fun {st} {a} => " + wrap(lets, v), bool(left)
+            ab = f"({a} : {lean_ty(it['elem'])})" if it["elem"] in (("struct", "PExpr"), ("struct", "Call"), ("struct", "Inner"), ("struct", "Argument")) else a
+            return f"fun {st} {ab} => " + wrap(lets, v), bool(left)
         n0 = self.nflush
         m0 = self.monadic
         def named(f, monadic):
@@ -3626,6 +3779,8 @@ def main():
         gproc.kind = "Except"; gproc.monadic = True
         tr.register("gates", "process", gproc)
         T(t, "qasm/int/macros.rs", "argument_name", "macro_argument_name", param_types={"reg": ("struct", "Argument")})
+        T(t, "qasm/int/macros.rs", "new", "macro_new", struct="Macro", impl=M, default_elem="str",
+          param_types={"nodes": ("vec", ("struct", "Inner"))})
         # process_nested calls itself: registered beforehand, with the fuel of the recursive definition as first argument
         rec = Sig("macro_process_nested fuel", [("self", ("struct", "Macro")), ("name", "str"), ("regs", ("vec", "N")), ("args", ("vec", "R")),
                                                  ("macros", ("map", "Macro")), ("stack", ("vec", "str"))], MULTIOP, ["stack"])
@@ -3678,9 +3833,7 @@ def main():
         pna.kind = "Except"; pna.monadic = True
         tr.register("Int", "process_node", pna)
         T(t, "qasm/int/mod.rs", "process_if", "int_process_if", struct="Int", impl=I, default_elem="str")
-        mnew = Sig("Macro.new", [("regs", ("vec", "str")), ("args", ("vec", "str")), ("nodes", ("vec", ("struct", "Inner")))], ("struct", "Macro"), [])
-        mnew.kind = "Except"; mnew.monadic = True
-        tr.register("Macro", "new", mnew)         # macros.rs is mirrored by hand (Model/Interp.lean `Macro.new`; text tied by tools/canon.py)
+        # Macro::new is the translated `macro_new` (group macrosfile above)
         T(t, "qasm/int/mod.rs", "process_gate", "int_process_gate", struct="Int", impl=I, default_elem="str",
           param_types={"nodes": ("vec", ("struct", "Inner"))})
         NODES = ("vec", ("struct", "AstNode"))
